@@ -97,6 +97,8 @@ func rulesC20(c *Ctx) {
 	R.Rule("R3", "error provenance: no foreign error forwarded, internal codes only via BuildCashuError and masked, cause -> error value -> code", 40)
 	R.Rule("R4", "NUT-19 cache discipline", 12)
 	R.Rule("R5", "status 400 before the body in the error writer; no status on success paths", 2)
+	R.Rule("R6", "a refusal is never answered with success: in the mint, its storage and Lightning layers and the protocol packages the error of every call is tested nil, classified or handed on before any return that may report success (sites where continuing is intended are a frozen table)", 100)
+	c.ruleErrorDisciplinePkgs("R6", []string{"mint", "mint/storage/*", "mint/lightning", "mint/manager", "mint/pubsub", "cashu", "cashu/*", "crypto"}, errToleratedMint, 100)
 	c.vocabProblems("R1")
 	pm := c.ptrMarshalers()
 
